@@ -7,7 +7,8 @@
 (* run on a real node constructed over the voter state; the contact is     *)
 (* lapsed before each request (the spec's sticky = FALSE).                 *)
 (*   voter: term 1..2, vote none / a / b, log (boot) | (boot, e2 of term   *)
-(*          1) | (boot, e2 of term 2 - only if its term is 2)              *)
+(*          1) | (boot, e2 of term 2 - only if its term is 2), compacted   *)
+(*          up to b in 0..Len (own snapshot labelled b)                    *)
 (*   request: candidate a / b, term = voter's or one higher, last log      *)
 (*            equal to the voter's or one entry shorter, prevote or real   *)
 (***************************************************************************)
@@ -24,11 +25,14 @@ Cases ==
   UNION { UNION { { [vt |-> vt, vote |-> vote, q |-> q, r1 |-> r1, crash |-> cr, r2 |-> r2] :
                       r1 \in Reqs(vt, q), cr \in BOOLEAN, r2 \in Reqs(vt, q) \cup Reqs(vt + 1, q) } : q \in Logs(vt) } :
           vt \in 1..2, vote \in {"none", "a", "b"} }
+\* ... and every compaction point of the voter's log: b = Len(q) is a voter whose log file holds nothing
+\* but the snapshot boundary (seeded change C08c: "an empty log is older than every candidate's")
+CasesB == { [x |-> x, b |-> b] : x \in Cases, b \in 0..2 } 
 
 Voter(x) ==
   LET v == IF x.vote = "none" THEN Nil ELSE x.vote IN
   [InitNode EXCEPT !.term = x.vt, !.vote = v, !.dterm = x.vt, !.dvote = v,
-                   !.log = [base |-> 0, bterm |-> 0, ents |-> x.q]]
+                   !.log = [base |-> x.b, bterm |-> IF x.b = 0 THEN 0 ELSE x.q[x.b].t, ents |-> SubSeq(x.q, x.b + 1, Len(x.q))]]
 
 \* crash + restart: volatile state gone, term / vote from the durable copies
 Restarted(s) == [s EXCEPT !.term = s.dterm, !.vote = s.dvote, !.role = "F"]
@@ -42,7 +46,7 @@ Out(x) ==
       h1 == HandleRV(s0, x.r1, FALSE)
       s1 == IF x.crash THEN Restarted(h1.s) ELSE h1.s
       h2 == HandleRV(s1, x.r2, FALSE) IN
-  [ prep |-> [term |-> x.vt, vote |-> Str(s0.vote), ents |-> Wire(x.q), snap_idx |-> 0],
+  [ prep |-> [term |-> x.vt, vote |-> Str(s0.vote), ents |-> Wire(x.q), snap_idx |-> x.b],
     r1 |-> [term |-> x.r1.term, last |-> x.r1.last, lastt |-> x.r1.lastt, pre |-> x.r1.pre], c1 |-> x.r1.from,
     crash |-> x.crash,
     r2 |-> [term |-> x.r2.term, last |-> x.r2.last, lastt |-> x.r2.lastt, pre |-> x.r2.pre], c2 |-> x.r2.from,
@@ -50,7 +54,7 @@ Out(x) ==
     e2 |-> [ok |-> h2.reply.ok, rterm |-> h2.reply.term, dterm |-> h2.s.dterm, dvote |-> Str(h2.s.dvote)] ]
 
 VARIABLE case
-HInit == /\ case \in Cases
+HInit == /\ case \in {[f \in DOMAIN y.x \cup {"b"} |-> IF f = "b" THEN y.b ELSE y.x[f]] : y \in {z \in CasesB : z.b <= Len(z.x.q)}}
          /\ ns = [n \in Node |-> InitNode] /\ net = {} /\ budget = <<>> /\ elected = {} /\ comm = <<>> /\ voted = {} /\ acked = 0 /\ viol = {}
 HNext == UNCHANGED <<case, vars>>
 Emit == PrintT("CASE|" \o ToJson(Out(case)))
